@@ -79,27 +79,32 @@ func (c lenWire) String() string {
 	return fmt.Sprintf("/Length wiring: S1 -> %s; S2 -> %s; %s", lwTargetName(c.s1), lwTargetName(c.s2), strings.Join(ns, "; "))
 }
 
-// lenWireCases lists the family in a fixed order: every wiring with one and
-// with two nodes; thorough adds, with three nodes, every wiring of the nodes
-// (object streams direct).
+// lenWireCases lists the family in a fixed order: every wiring with one node;
+// with two nodes every wiring of the nodes and of S1 (S2 direct); thorough
+// adds every wiring of S2 as well and, with three nodes, every wiring of the
+// nodes (object streams direct).
 func lenWireCases(thorough bool) []lenWire {
 	var out []lenWire
-	gen := func(n int, containers bool) {
+	gen := func(n int, vary1, vary2 bool) {
 		nt := lwNode0 + n
-		cont := []int{lwDirect}
-		if containers {
-			cont = nil
-			for t := 0; t < nt; t++ {
-				cont = append(cont, t)
-			}
+		all := []int{}
+		for t := 0; t < nt; t++ {
+			all = append(all, t)
+		}
+		c1, c2 := []int{lwDirect}, []int{lwDirect}
+		if vary1 {
+			c1 = all
+		}
+		if vary2 {
+			c2 = all
 		}
 		per := 3 * nt
 		total := 1
 		for i := 0; i < n; i++ {
 			total *= per
 		}
-		for _, a := range cont {
-			for _, b := range cont {
+		for _, a := range c1 {
+			for _, b := range c2 {
 				for k := 0; k < total; k++ {
 					c := lenWire{s1: a, s2: b}
 					x := k
@@ -113,10 +118,10 @@ func lenWireCases(thorough bool) []lenWire {
 			}
 		}
 	}
-	gen(1, true)
-	gen(2, true)
+	gen(1, true, true)
+	gen(2, true, thorough)
 	if thorough {
-		gen(3, false)
+		gen(3, false, false)
 	}
 	return out
 }
